@@ -704,9 +704,25 @@ def parse_chain(expr):
                 return None
             name = m.group(1)
             j = i + m.end()
+            turbofish = m.group(2) or ""
+            # a nested turbofish (`collect::<HashMap<_, _>>()`): the lazy regex stops at the first `>`; match the angle brackets
+            m2 = re.match(r"^\.\s*\w+\s*::\s*<", s[i:])
+            if m2:
+                depth, q = 1, i + m2.end()
+                while q < n and depth > 0:
+                    if s[q] == "<":
+                        depth += 1
+                    elif s[q] == ">" and s[q - 1] != "-":
+                        depth -= 1
+                    q += 1
+                if depth == 0:
+                    turbofish = s[i + m2.end() - 1:q]
+                    j = q
+                    while j < n and s[j].isspace():
+                        j += 1
             if j < n and s[j] == "(":
                 e = match_close(s, j)
-                segs.append(("method", name, s[j + 1:e], i))
+                segs.append(("method", name, s[j + 1:e], i, turbofish))
                 i = e + 1
             else:
                 segs.append(("field", name))
@@ -856,6 +872,17 @@ class Typer:
                 segs = segs[1:]
             else:
                 cur = self.env.lookup(root, pos)
+        # `….collect::<HashMap<..>>()` (or HashSet / IntMap / IntSet): whatever was collected — typed or not — the result
+        # is a hash container; typing restarts at the last such segment
+        for q in range(len(segs) - 1, -1, -1):
+            seg = segs[q]
+            if seg[0] == "method" and seg[1] == "collect" and len(seg) > 4 and seg[4]:
+                inner = re.sub(r"^(?:::)?\s*<(.*)>$", r"\1", seg[4].strip(), flags=re.S).strip()
+                inner = re.sub(r"^(?:std\s*::\s*collections\s*::\s*)", "", inner)
+                if self.crate.family(inner):
+                    cur = squash(inner)
+                    segs = segs[q + 1:]
+                    break
         for seg in segs:
             if cur is None:
                 return None
